@@ -396,6 +396,13 @@ class Effects:
 
     def _membership_guard(self, f: FunctionInfo, cfg: CFG, node: ast.AST, container: ast.AST, key: ast.AST) -> Optional[str]:
         ctext, ktext = norm(container), norm(key)
+        # the sense of the tests (dominating, short-circuit, conditional expression), not their spelling
+        from .shape import _atomise, _norm_fact
+
+        for test, lab in list(self._dominating_tests(cfg, node)) + list(_short_circuit_facts(f.node, node)):
+            for e_, truth_ in _atomise(test, lab == "true"):
+                if truth_ and _norm_fact(e_) == f"{ktext} in {ctext}":
+                    return f"guarded by `{ktext} in {ctext}`"
         for test, lab in self._dominating_tests(cfg, node):
             for cmp_ in [x for x in ast.walk(test) if isinstance(x, ast.Compare)]:
                 if len(cmp_.ops) != 1:
@@ -841,6 +848,13 @@ class Effects:
         if maxsplit != ntargets - 1 or ntargets != 2:
             return None
         recv, septext = norm(call.func.value), norm(sep)
+        # atomised facts: `sep in recv` holds (however the test was spelled: count / in / not in + else / De Morgan)
+        from .shape import _atomise, _norm_fact
+
+        for test, lab in list(self._dominating_tests(cfg, asg)) + list(_short_circuit_facts(f.node, asg)):
+            for e_, truth_ in _atomise(test, lab == "true"):
+                if truth_ and _norm_fact(e_) == f"{septext} in {recv}":
+                    return f"`{septext} in {recv}` and maxsplit fixes the arity"
         for test, lab in self._dominating_tests(cfg, asg):
             if lab != "true":
                 continue
